@@ -1927,3 +1927,85 @@ variant('t-balancer-cursor-read-after-advance', ['C01'], 'rsocket/load_balancer/
         self._current_index = (self._current_index + 1) % len(self._pool)
         return client""", """        self._current_index = (self._current_index + 1) % len(self._pool)
         return self._pool[self._current_index]""", kind='twin')
+
+# C12.l the error conversions keep code and text
+variant('b-protocol-error-sent-as-application-error', ['C12', 'C16', 'C13'], 'rsocket/frame.py',
+        "        frame.error_code = exception.error_code\n", "        frame.error_code = ErrorCode.APPLICATION_ERROR\n",
+        ('C12.l', 'exception_to_error_frame'))
+variant('b-received-error-code-test-inverted', ['C12', 'C07'], 'rsocket/frame.py',
+        "    if frame.error_code != ErrorCode.APPLICATION_ERROR:", "    if frame.error_code == ErrorCode.APPLICATION_ERROR:",
+        ('C12.l', 'error_frame_to_exception'))
+variant('b-received-error-code-replaced', ['C07', 'C16'], 'rsocket/frame.py',
+        "        return RSocketProtocolError(frame.error_code, data=frame.data.decode())",
+        "        return RSocketProtocolError(ErrorCode.CONNECTION_ERROR, data=frame.data.decode())",
+        ('C12.l', 'error_frame_to_exception'))
+variant('b-protocol-error-forgets-its-data', ['C12'], 'rsocket/exceptions.py',
+        "        self.data = data\n", "        self.data = None\n", ('C12.l', 'RSocketProtocolError.__init__'))
+variant('t-error-frame-built-in-another-order', ['C12', 'C16'], 'rsocket/frame.py',
+        """    if isinstance(exception, RSocketProtocolError):
+        frame.error_code = exception.error_code
+        frame.data = ensure_bytes(exception.data)
+    else:
+        frame.error_code = ErrorCode.APPLICATION_ERROR
+        frame.data = ensure_bytes(str(exception))
+""", """    if not isinstance(exception, RSocketProtocolError):
+        code, data = ErrorCode.APPLICATION_ERROR, str(exception)
+    else:
+        code, data = exception.error_code, exception.data
+    frame.data = ensure_bytes(data)
+    frame.error_code = code
+""", kind='twin')
+
+# C02.h the decoder's entry point
+variant('b-decoder-refuses-header-only-frames', ['C02'], 'rsocket/frame.py',
+        "    if len(buffer) < HEADER_LENGTH:\n        raise ParseError", "    if len(buffer) <= HEADER_LENGTH:\n        raise ParseError",
+        ('C02.h', 'parse_or_ignore'))
+variant('b-decoder-returns-only-ignored-frames', ['C02'], 'rsocket/frame.py',
+        "        if not is_frame_to_ignore(frame):\n            return frame",
+        "        if is_frame_to_ignore(frame):\n            return frame", ('C02.h', 'parse_or_ignore'))
+variant('b-decoder-ignore-flag-inverted', ['C02'], 'rsocket/frame.py',
+        "        if not header.flags_ignore:\n            raise RSocketProtocolError(ErrorCode.CONNECTION_ERROR",
+        "        if header.flags_ignore:\n            raise RSocketProtocolError(ErrorCode.CONNECTION_ERROR",
+        ('C02.h', 'parse_or_ignore'))
+variant('b-decoder-parses-past-the-header', ['C02'], 'rsocket/frame.py',
+        "        frame.parse(buffer, 0)\n\n        if not is_frame_to_ignore", "        frame.parse(buffer, HEADER_LENGTH)\n\n        if not is_frame_to_ignore",
+        ('C02.h', 'parse_or_ignore'))
+variant('b-ignore-every-metadata-push', ['C02'], 'rsocket/frame.py',
+        "    if isinstance(frame, MetadataPushFrame) and frame.stream_id != CONNECTION_STREAM_ID:",
+        "    if isinstance(frame, MetadataPushFrame) or frame.stream_id != CONNECTION_STREAM_ID:",
+        ('C02.h', 'is_frame_to_ignore'))
+variant('t-decoder-guard-clauses', ['C02'], 'rsocket/frame.py',
+        """        if not is_frame_to_ignore(frame):
+            return frame
+""", """        if is_frame_to_ignore(frame):
+            return None
+        return frame
+""", kind='twin')
+variant('t-decoder-short-test-other-way', ['C02'], 'rsocket/frame.py',
+        "    if len(buffer) < HEADER_LENGTH:\n        raise ParseError", "    if HEADER_LENGTH > len(buffer):\n        raise ParseError",
+        kind='twin')
+
+# C01.n connection pumps
+variant('b-receive-loop-only-when-dead', ['C01'], RB,
+        "        while self.is_server_alive():\n            next_frame_generator",
+        "        while not self.is_server_alive():\n            next_frame_generator", ('C01.n', '_receiver_listen'))
+variant('b-send-loop-only-when-dead', ['C01'], RB,
+        "                while self.is_server_alive():\n                    async with",
+        "                while not self.is_server_alive():\n                    async with", ('C01.n', '_sender'))
+variant('b-tasks-started-only-when-closing', ['C01'], RB,
+        "        if not self._is_closing:\n            return asyncio.create_task(task_factory())",
+        "        if self._is_closing:\n            return asyncio.create_task(task_factory())",
+        ('C01.n', '_start_task_if_not_closing'))
+variant('b-metadata-push-not-queued', ['C01'], RB,
+        "        frame = to_metadata_push_frame(metadata)\n        self.send_frame(frame)\n",
+        "        frame = to_metadata_push_frame(metadata)\n", ('C01.n', 'metadata_push'))
+variant('b-invalid-frames-skipped-before-dispatch', ['C01'], RB,
+        "            async for frame in next_frame_generator:\n                try:",
+        "            async for frame in next_frame_generator:\n                if frame.stream_id % 2 == 0:\n                    continue\n                try:",
+        ('C01.n', 'every frame the transport yields'))
+variant('t-receive-loop-while-true', ['C01'], RB,
+        "        while self.is_server_alive():\n            next_frame_generator",
+        "        while True:\n            next_frame_generator", kind='twin')
+variant('t-start-task-guard-clause', ['C01'], RB,
+        "        if not self._is_closing:\n            return asyncio.create_task(task_factory())",
+        "        if self._is_closing:\n            return None\n        return asyncio.create_task(task_factory())", kind='twin')
